@@ -318,6 +318,22 @@ class PyEval:
     localdefs: dict[int, ast.FunctionDef] = {}
 
     def _loop(self, st, p: PPath) -> list[PPath]:
+        if isinstance(st, ast.For) and isinstance(st.iter, ast.Call) and self.resolver is not None and not getattr(st, '_iter_inlined', False):
+            # `for x in helper(..)`: the helper is evaluated in place (as `tmp = helper(..); for x in tmp`)
+            inl = self._inline_call(st.iter, p)
+            if inl is not None:
+                tmp = f'__iter_{st.lineno}_{st.col_offset}'
+                st2 = ast.copy_location(ast.For(target=st.target, iter=ast.copy_location(ast.Name(id=tmp, ctx=ast.Load()), st.iter),
+                                                body=st.body, orelse=st.orelse), st)
+                st2._iter_inlined = True
+                out = []
+                for q, v in inl:
+                    if v is None:
+                        out.append(q)            # the helper raised
+                        continue
+                    q.env[tmp] = v
+                    out.extend(self._loop(st2, q))
+                return out
         env = dict(p.env)
         ev: list = []
         if isinstance(st, ast.For):
@@ -533,6 +549,22 @@ class PyEval:
                 else:
                     args.append(self.expr(a, env, ev))
             kw = tuple((k.arg, self.expr(k.value, env, ev)) for k in e.keywords)
+            if f[0] == 'lambda' and not kw and len(f[1]) == len(args) and not any(a[0] == 'star' for a in args):
+                # applying a lambda value (passed as an argument, held in a local): its body with the parameters replaced.  The body was
+                # evaluated in the environment of its definition, so captured variables already denote the right values.
+                table = {('bound', n): a for n, a in zip(f[1], args)}
+
+                def beta(x):
+                    if not isinstance(x, tuple) or not x:
+                        return x
+                    if x in table:
+                        return table[x]
+                    return tuple(beta(y) if isinstance(y, tuple) else y for y in x)
+                v = beta(f[2])
+                for y in _subvalues(v):
+                    if y[0] == 'call':
+                        ev.append(PEvent('ecall', y, node=e))
+                return v
             v = ('call', f, tuple(args), kw)
             ev.append(PEvent('ecall', v, node=e))      # every call, in evaluation order
             return v
@@ -634,6 +666,16 @@ class PyEval:
 
 
 # ----------------------------------------------------------------------------
+
+def _subvalues(v):
+    """all tuple sub-values of a value, innermost first (evaluation order of nested calls)"""
+    if isinstance(v, tuple) and v:
+        for x in v:
+            if isinstance(x, tuple):
+                yield from _subvalues(x)
+        if isinstance(v[0], str):
+            yield v
+
 
 class _Subst(ast.NodeTransformer):
     def __init__(self, name, repl):
